@@ -321,8 +321,8 @@ func setup() {
 	}
 	chainIDs = []*big.Int{
 		big.NewInt(1), big.NewInt(2), big.NewInt(24),
-		mustBig("0xABCDEF0123"),                                  // 40 bits
-		new(big.Int).Sub(new(big.Int).Lsh(big.NewInt(1), 63), big.NewInt(18)), // 2C+35 = 2^64-1, 2C+36 = 2^64
+		mustBig("0xABCDEF0123"), // 40 bits
+		new(big.Int).Sub(new(big.Int).Lsh(big.NewInt(1), 63), big.NewInt(18)),    // 2C+35 = 2^64-1, 2C+36 = 2^64
 		new(big.Int).Add(new(big.Int).Lsh(big.NewInt(1), 70), big.NewInt(12345)), // > 64 bits
 	}
 	palette = []sdesc{{kind: kHomestead}, {kind: kChain, id: chainIDs[0]}, {kind: kChain, id: chainIDs[1]}, {kind: kChain, id: chainIDs[2]},
@@ -649,8 +649,17 @@ func (s *sim) signingSigner() sdesc {
 // ---- operations ----
 
 // opCreate: build and sign through the product API; validate the outcome against the reference.
-func (s *sim) opCreate(zeroChain bool) bool {
-	f := s.drawFields()
+//
+// base != nil: re-sign a live object (its content, whatever signature and sender cache
+// it carries) with a tape-chosen key and signer; the outcome is a new object that must
+// not inherit anything from the old signature.
+func (s *sim) opCreate(zeroChain bool, base *object) bool {
+	var f fields
+	if base != nil {
+		f = base.m.f.clone()
+	} else {
+		f = s.drawFields()
+	}
 	k := s.t.Draw(len(keys))
 	sd := s.signingSigner()
 	if zeroChain {
@@ -665,6 +674,9 @@ func (s *sim) opCreate(zeroChain bool) bool {
 	var err error
 	p := guard(func() {
 		un := newUnsigned(f)
+		if base != nil {
+			un = base.tx
+		}
 		switch how {
 		case 0:
 			tx, err = types.SignTx(inst, un, keys[k].prv)
@@ -679,14 +691,22 @@ func (s *sim) opCreate(zeroChain bool) bool {
 			tx = types.MustSignNewTx(inst, un, keys[k].prv)
 		}
 	})
-	s.ah.Add("create", sd.class(), fmt.Sprint(zeroChain), fmt.Sprint(f.to == nil), fmt.Sprint(len(f.data) > 0))
+	opName := "create"
+	if base != nil {
+		opName = "resign"
+		if base.cached != nil {
+			opName = "resign-cached"
+			s.res.Probe("re-signed-an-object-with-cached-sender")
+		}
+	}
+	s.ah.Add(opName, sd.class(), fmt.Sprint(zeroChain), fmt.Sprint(f.to == nil), fmt.Sprint(len(f.data) > 0))
 	if p != "" {
-		s.step("create key=%d signer=%s %s -> PANIC", k, sd, f)
+		s.step("%s key=%d signer=%s %s -> PANIC", opName, k, sd, f)
 		s.violate("panic", "panic while signing a transaction: "+firstLine(p), p)
 		return false
 	}
 	if err != nil || tx == nil {
-		s.step("create key=%d signer=%s %s -> error %v", k, sd, f, err)
+		s.step("%s key=%d signer=%s %s -> error %v", opName, k, sd, f, err)
 		s.violate("sign-recover", "signing a well-formed transaction with a valid key failed", fmt.Sprintf("fields %s signer %s: %v", f, sd, err))
 		return false
 	}
@@ -694,7 +714,7 @@ func (s *sim) opCreate(zeroChain bool) bool {
 	m.v, m.r, m.s = rawOf(tx)
 	o := &object{tx: tx, m: m, origin: "signed"}
 	i := s.put(o)
-	s.step("create o%d key=%d signer=%s(%s) how=%d %s -> v=%s r=%x.. s=%x..", i, k, sd, route, how, f, short(m.v), pad32(m.r)[:4], pad32(m.s)[:4])
+	s.step("%s o%d key=%d signer=%s(%s) how=%d %s -> v=%s r=%x.. s=%x..", opName, i, k, sd, route, how, f, short(m.v), pad32(m.r)[:4], pad32(m.s)[:4])
 	rec := &record{key: k, fkey: f.key(), sd: sd, zero: zeroChain, m: m}
 	s.recs = append(s.recs, rec)
 	if zeroChain {
@@ -884,6 +904,7 @@ func (s *sim) opSender(idx int, sd sdesc, via int) bool {
 		}
 	} else {
 		s.advEvaluated++
+		s.res.Probe("evaluated:" + o.origin)
 	}
 	if rec != nil && rec.zero && sd.kind == kChain && sd.id.Sign() == 0 && (!got.ok || got.addr != keys[rec.key].addr) {
 		s.res.Probe("chainid-zero-sign-then-recover-mismatch")
@@ -1374,12 +1395,12 @@ func (engine) Run(t *testing.T, tape *core.Tape, opt core.Options) *core.RunResu
 		res.Sample = map[string]interface{}{"ops": s.ops}
 	}()
 
-	nOps := tape.Range(4, opt.Int("steps", 26))
+	nOps := tape.Range(4, opt.Int("steps", 30))
 	for step := 0; step < nOps; step++ {
 		res.Steps++
 		op := 1
 		if len(s.objs) > 0 {
-			op = tape.Weighted(10, 4, 2, 4, 2, 3, 1)
+			op = tape.Weighted(14, 3, 2, 4, 1, 3, 1, 1)
 		}
 		ok := true
 		switch op {
@@ -1387,7 +1408,7 @@ func (engine) Run(t *testing.T, tape *core.Tape, opt core.Options) *core.RunResu
 			idx := tape.Draw(len(s.objs))
 			o := s.objs[idx]
 			var sd sdesc
-			switch tape.Weighted(3, 4, 2) {
+			switch tape.Weighted(4, 4, 2) {
 			case 0: // the signer the object asks for (by its v, parsed by the model) or its last one
 				mode, ch, _ := apparent(o.m.v)
 				switch {
@@ -1407,7 +1428,7 @@ func (engine) Run(t *testing.T, tape *core.Tape, opt core.Options) *core.RunResu
 			}
 			ok = s.opSender(idx, sd, tape.Weighted(6, 3, 1))
 		case 1:
-			ok = s.opCreate(tape.Chance(1, 24))
+			ok = s.opCreate(tape.Chance(1, 24), nil)
 		case 2:
 			ok = s.opCopy(tape.Draw(len(s.objs)))
 		case 3:
@@ -1418,6 +1439,8 @@ func (engine) Run(t *testing.T, tape *core.Tape, opt core.Options) *core.RunResu
 			ok = s.opMalformed(tape.Draw(len(s.objs)))
 		case 6:
 			ok = s.opSplice(tape.Draw(len(s.objs)), tape.Draw(len(s.objs)))
+		case 7:
+			ok = s.opCreate(false, s.objs[tape.Draw(len(s.objs))])
 		}
 		if !ok || res.Failed() || res.Infra != "" {
 			return res
